@@ -491,6 +491,8 @@ pub struct CloneObs {
     pub shim_ok: bool,
     pub tail: String,
     pub fault_fired: bool,
+    /// see proc::Outcome::idle_hang
+    pub idle_hang: bool,
 }
 
 pub fn clone_spec(b: &Built, sc: &Scenario, archive: String) -> CloneSpec {
@@ -647,6 +649,7 @@ pub fn run_clone(dir: &Path, b: &Built, sc: &Scenario, tag: &str, faults: &Fault
         .map(|r| r.off as u64)
         .collect();
     let fault_fired = o.shim.iter().any(|r| r.kind == proc::K_FAULT);
+    let idle_hang = o.idle_hang();
     CloneObs {
         exit: o.exit,
         output: std::fs::read(&b.out_path).ok(),
@@ -658,6 +661,7 @@ pub fn run_clone(dir: &Path, b: &Built, sc: &Scenario, tag: &str, faults: &Fault
         shim_ok: o.shim_ok,
         shim: o.shim,
         fault_fired,
+        idle_hang,
     }
 }
 
